@@ -27,9 +27,13 @@ _HUB_ASSUME = ["Go runtime semantics are modelled, not verified: a select picks 
                "wall-clock promptness and goroutine release are measured by the oracle and reported as exploration"]
 
 PROPS = {
-    "C01": {"streams": [_FRAG_STREAM, {"name": "mux", "quick": 3000, "thorough": 100000, "thorough_seeds": 2}],
+    "C01": {"streams": [{"name": "stack", "quick": 700, "thorough": 20000, "thorough_seeds": 3, "stateful": True, "seq_start": "stack-new"},
+                        _FRAG_STREAM, {"name": "mux", "quick": 3000, "thorough": 100000, "thorough_seeds": 2}],
             "oracles": ["swarm", "frag"], "oracle_n": {"quick": 28, "thorough": 600},
-            "rule": "swarm oracle: 14 stack templates (in-memory, fragmenting, string/uint16 multiplexed, multi-transport, P2PKE, "
+            "rule": "stack stream: random nestings of 0-3 multiplexer channels (all five kinds) around at most one fragmenting swarm over an "
+                    "in-memory base of MTU 20-1200 whose datagrams the harness captures and releases; payloads at MTU-1/MTU/MTU+1, base and "
+                    "2*base; compared: MTU(), the exact set of base datagrams of each Tell, and what the receiving stack delivers; "
+                    "swarm oracle: 14 stack templates (in-memory, fragmenting, string/uint16 multiplexed, multi-transport, P2PKE, "
                     "message-box over P2PKE, whitelisted, real UDP, P2PKE+fragmenting over UDP, QUIC over UDP, SSH) nested by runtime type "
                     "erasure; 2-3 nodes, 3 concurrent receivers each, 4-8 concurrent senders with boundary lengths 0,1,2,MTU-1,MTU and unique "
                     "contents, send buffers overwritten as soon as Tell returns; every delivery is checked against the ledger of told "
@@ -44,6 +48,14 @@ PROPS = {
     "C14": {"streams": [_HUB_STREAM], "oracles": ["hub"], "rule": _HUB_RULE, "level": "proof",
             "assumptions": _HUB_ASSUME + ["data-race freedom under the Go memory model is NOT claimed (no model represents happens-before); "
                                           "only buffer ownership in the queue and hubs is proved"], "oracle_n": {"quick": 100, "thorough": 2000}},
+    "C04": {"streams": [_KE_STREAM], "oracles": ["secure", "ke"], "oracle_n": {"quick": 12, "thorough": 300},
+            "rule": _KE_RULE + "; secure oracle: real p2pkeswarm (in-memory transport), quicswarm (UDP loopback) and sshswarm (TCP loopback) "
+                    "nodes: honest pairs (Src identity and LookupPublicKey inside the handler), a Tell to identity C at node B's transport "
+                    "address, whitelists that reject the sender, and for SSH the authentication history [query A, query V, sign A] emitted "
+                    "by a patched copy of the x/crypto/ssh client",
+            "assumptions": _KE_ASSUME + ["proof of possession inside TLS 1.3 (quic-go) and inside the SSH user-auth signature check (x/crypto/ssh) is "
+                                         "assumed: the decision models take 'this key was proven' as an input",
+                                         "fingerprints are treated as injective (identity = key)"]},
     "C05": {"streams": [_KE_STREAM], "oracles": ["ke"], "rule": _KE_RULE, "assumptions": _KE_ASSUME,
             "oracle_n": {"quick": 3000, "thorough": 60000}},
     "C07": {"streams": [_KE_STREAM], "oracles": ["ke"], "rule": _KE_RULE, "oracle_n": {"quick": 3000, "thorough": 60000},
